@@ -15,7 +15,7 @@ Definition render_aerr (e : aerr) : string :=
   | ErrArg a => render_actx_err a
   | ErrHash r => render_hres r
   | ErrAssertCtx => "low:builtins.AssertionError"
-  | ErrAssertDep _ => "low:builtins.AssertionError"
+  | ErrLoadBeforeStore _ => "dds:LOAD_BEFORE_STORE"
   | ErrEmpty => "model:empty"
   end.
 
